@@ -271,7 +271,7 @@ func diff(a, b string, options []jd.Option) (string, bool, error) {
 	switch *format {
 	case "", "jd":
 		str = diff.Render(renderOptions...)
-		if str != "" {
+		if len(diff) > 0 {
 			haveDiff = true
 		}
 	case "patch":
@@ -279,7 +279,7 @@ func diff(a, b string, options []jd.Option) (string, bool, error) {
 		if err != nil {
 			return "", false, err
 		}
-		if str != "[]" {
+		if len(diff) > 0 {
 			haveDiff = true
 		}
 	case "merge":
@@ -287,7 +287,7 @@ func diff(a, b string, options []jd.Option) (string, bool, error) {
 		if err != nil {
 			return "", false, err
 		}
-		if str != "{}" {
+		if len(diff) > 0 {
 			haveDiff = true
 		}
 	default:
